@@ -161,7 +161,10 @@ CHECKS = {
          "table, column and position of the first failing row; C16_file_bytes / C16_atomic_bytes state the same about the characters "
          "on disk (Model/Files.lean: the file is parsed by the csv model, converted in memory, rewritten only on success; "
          "csv_roundtrip), with csv_roundtrip_fails_with_newline_translation pinning the repaired defect F6. The seven real bulk methods are compared, cell by cell, with "
-         "the scalar methods of the implementation itself; for files the bytes before/after are compared when the call raises.",
+         "the scalar methods of the implementation itself; for files the bytes before/after are compared when the call raises. The csv "
+         "model itself is compared with CPython's csv module on every run (harness/csvlayer.py): every text of length <= 6 (thorough 8) "
+         "over {delimiter, quote, CR, LF, 'a', ' '} through csv.reader and the modelled reader, every table of <= 2 x 2 cells through "
+         "csv.writer and the modelled writer, and 10 % of the cases as random texts and tables over four delimiters.",
     design="§7 C16", technique="Lean 4 theorem (map-over-column and two-phase atomicity of the file helper) + correspondence on real data frames and files"),
  "C17": dict(
     text="Proof: C17_match_sound / C17_match_complete (both route patterns, modelled as greedy slash-free first group + "
